@@ -520,6 +520,11 @@ def compile_data(name, src, cfg):
     return CompilerData(fi, ib, settings=cfg.settings())
 
 
+GEN_PRELUDE = """From Verif Require Import C16.GenAsmLoops.
+Definition gen_run (v : Z) (asm : list item) := gen_assemble (opcode_table v) v asm.
+"""
+NOGEN_PRELUDE = """Definition gen_run (v : Z) (asm : list item) := assemble (opcode_table v) (has_push0 v) asm.
+"""
 MODEL_PRELUDE = """From Verif Require Import Base.PyInt C16.Asm C16.HexBytes C16.GenOpcodes.
 Open Scope list_scope.
 Fixpoint leq (a b : list Z) : bool :=
@@ -528,14 +533,26 @@ Fixpoint first_diff (a b : list Z) (i : Z) : Z :=
   match a, b with [], [] => -1 | x :: a', y :: b' => if x =? y then first_diff a' b' (i + 1) else i | _, _ => i end.
 (* result: (verdict, wf, symbol_map, const_map); verdict "ok" iff the model's bytes equal `expect`,
    otherwise "ne:" ++ hex [offset of the first difference (3 bytes); model bytes there (up to 8)] *)
+Fixpoint peq (a b : list (Z * Z)) : bool :=
+  match a, b with [], [] => true | (x, y) :: a', (x', y') :: b' => (x =? x') && (y =? y') && peq a' b' | _, _ => false end.
+(* the regenerated loops (gen_run) must give the same result as the model, errors included *)
+Definition agrees (g r : res (list Z * list (Z * Z) * list (Z * Z))) : bool :=
+  match g, r with
+  | Ok (b1, s1, c1), Ok (b2, s2, c2) => leq b1 b2 && peq s1 s2 && peq c1 c2
+  | Err _, Err _ => true
+  | _, _ => false
+  end.
 Definition run (v : Z) (expect : list Z) (asm : list item) :=
-  match assemble (opcode_table v) (has_push0 v) asm with
+  let r := assemble (opcode_table v) (has_push0 v) asm in
+  let same := agrees (gen_run v asm) r in
+  match r with
   | Ok (bs, sm, cm) =>
-      (if leq bs expect then "ok"%string
+      (if negb same then "gen-differs"%string
+       else if leq bs expect then "ok"%string
        else let i := first_diff bs expect 0 in
             ("ne:" ++ hex ([i / 65536; (i / 256) mod 256; i mod 256] ++ firstn 8 (skipn (Z.to_nat i) bs)))%string,
        wf_asm (opcode_table v) asm, sm, cm)
-  | Err _ => ("err"%string, false, [], [])
+  | Err _ => (if same then "err"%string else "gen-differs"%string, false, [], [])
   end.
 """
 
@@ -553,11 +570,14 @@ def parse_run(out):
     return m.group(1), m.group(2) == "true", pairs(m.group(3)), pairs(m.group(4))
 
 
-def run_model(cases, name, shard=24):
-    """cases: list of (evm_index, expected_bytes, coq_term) -> parsed results."""
+def run_model(cases, name, shard=24, with_gen=True):
+    """cases: list of (evm_index, expected_bytes, coq_term) -> parsed results.  with_gen: also run the
+    regenerated loops (GenAsmLoops.v) and require agreement with the model."""
     from . import coqrun
     exprs = [f"run {v} {coq_bytes(exp)} {term}" for v, exp, term in cases]
-    outs = coqrun.eval_cases(MODEL_PRELUDE, exprs, name, shard=shard, timeout=600)
+    head, rest = MODEL_PRELUDE.split("Open Scope list_scope.", 1)
+    prelude = head + (GEN_PRELUDE if with_gen else NOGEN_PRELUDE) + "Open Scope list_scope." + rest
+    outs = coqrun.eval_cases(prelude, exprs, name, shard=shard, timeout=600)
     return [parse_run(o) for o in outs]
 
 
